@@ -6,6 +6,10 @@ R02.3 boundary constants c1 = -w+ gamma+^2 v+, c2 = p+ + w+ gamma+^2 v+^2 (both 
 R02.4 side pairing: T+ values reach only high-T-phase functions/bounds, T- values only low-T ones
 R02.5 the convergence flag of the 2x2 solve is consulted by every function that hands the matching on
 R02.6 acceptance of the solve is scale free: the solver's own success is not weakened by an absolute residual test
+
+Recognition is by role: the residual functions are "the function handed to root / minimize_scalar / root_scalar" (whatever they are
+called), parameters are addressed by position, the common factor of the 2x2 residuals and the template's equation of state are read off
+the returned terms (not off local names), and the solver result is "the local assigned from the root(...) call".
 """
 from __future__ import annotations
 
@@ -15,7 +19,9 @@ import sympy as sp
 
 from ..core import AnchorMissing, Check, Undecided, calls_in, dotted, own_nodes, src
 from ..hydro import HY, TM, SideTyper, drop_ite, fn, hydro_extractor, junction_terms, n, th
+from ..nf import Ctx, eqx, has
 from ..terms import Extractor, is_zero
+from .c06 import _local_func, _side_conflicts
 
 LEVEL = "other"
 
@@ -52,28 +58,47 @@ def r02_1(chk: Check):
     return ex, A, B
 
 
+def _solver_function(S, fo, solvers: tuple, kw: str):
+    """the local function handed (first argument / keyword `kw`) to every call of one of `solvers` in fo: (FuncInfo, calls)"""
+    calls = [c for c in own_nodes(fo.node) if isinstance(c, ast.Call) and (dotted(c.func) or "").split(".")[-1] in solvers]
+    names = {a.id if isinstance(a, ast.Name) else None for a in ((c.args[0] if c.args else next((k.value for k in c.keywords if k.arg == kw), None)) for c in calls)}
+    if not calls or len(names) != 1 or None in names:
+        raise AnchorMissing(f"{fo.qual}: the local residual function handed to {'/'.join(solvers)} not found")
+    fi = _local_func(S, fo, names.pop())
+    if fi is None:
+        raise AnchorMissing(f"{fo.qual}: the residual handed to {'/'.join(solvers)} is not a local function")
+    return fi, calls
+
+
 def r02_2(chk: Check, A, B):
     S = chk.src
     ex = hydro_extractor(S)
-    fm = S.func(f"{HY}.matchDeflagOrHyb.matching")
+    fo2 = S.func(f"{HY}.matchDeflagOrHyb")
+    fm, _ = _solver_function(S, fo2, ("root",), "fun")
     chk.touch(fm.name)
-    ps = [p for p in ex.paths(fm) if p.raised is None]
-    if len(ps) != 2:
-        raise Undecided(f"matching: expected 2 branches (vp given / entropy), found {len(ps)}")
-    Tpm = fn("_inverseMappingT")(ex.sym("mappedTpTm"))
+    po = [p for p in fo2.params() if p != "self"]
+    if len(po) != 2 or len(fm.params()) != 1:
+        raise AnchorMissing("matchDeflagOrHyb(vw, vp) / its one-argument residual: parameter lists changed")
+    VW, VP = po
+    X = ex.sym("mappedTpTm")
+    Tpm = fn("_inverseMappingT")(X)
     T0, T1 = fn("getitem")(Tpm, 0), fn("getitem")(Tpm, 1)
     Tp, Tm = ex.sym("Tp"), ex.sym("Tm")
     A1, B1 = A.subs({Tp: T0, Tm: T1}, simultaneous=True), B.subs({Tp: T0, Tm: T1}, simultaneous=True)
-    vw = ex.sym("vw")
+    vw = ex.sym(VW)
     vmsq = sp.Min(vw**2, th("csqLowT")(T1))
-    for p in ps:
-        given = not p.guards[0].polarity if "is None" in p.guards[0].text() else None
+    for given in (True, False):
+        # the two settings of the optional parameter: v+ given by the caller / v+ from entropy conservation
+        ps = [p for p in ex.paths(fm, {fm.params()[0]: X}, {VP: ex.sym("vp") if given else None}) if p.raised is None]
+        if len(ps) != 1 or not (isinstance(ps[0].value, (tuple, list)) and len(ps[0].value) == 2):
+            raise Undecided(f"2x2 residual: expected one path returning a pair for vp {'given' if given else 'None'}, found {len(ps)}")
+        p = ps[0]
         e1, e2 = (drop_ite(x) for x in p.value)
         label = "vp given" if given else "vp from entropy"
         vpsq = ex.sym("vp") ** 2 if given else (T1**2 - T0**2 * (1 - vmsq)) / T1**2
-        c = p.env.get("c")
-        if not isinstance(c, sp.Basic):
-            raise Undecided("matching: common factor `c` not found")
+        # the common factor of the two residuals (read off the returned terms)
+        common = [f_ for f_ in sp.Mul.make_args(e1) if f_ in set(sp.Mul.make_args(e2))] if isinstance(e1, sp.Basic) and isinstance(e2, sp.Basic) else []
+        c = sp.Mul(*common) if common else sp.Integer(1)
         ok1, how1 = is_zero(e1 - c * (A1 - vpsq), chk.seed)
         ok2, how2 = is_zero(e2 - c * (B1 - vmsq), chk.seed)
         chk.ob("R02.2", fm.where(), f"matching ({label}): residuals are c*(vpvm*vpovm - v+^2) and c*(vpvm/vpovm - v-^2), v-^2 = min(vw^2, csqLowT(T-))",
@@ -84,46 +109,64 @@ def r02_2(chk: Check, A, B):
         chk.ob("R02.2", fm.where(), f"matching ({label}): the common factor is strictly positive for positive temperatures (roots unchanged)",
                pos is True, f"c = {c}"[:200], key=f"positive-factor|{label}", how="sign-analysis")
     # detonation
-    fd = S.func(f"{HY}.matchDeton.tmFromvpsq")
     fo = S.func(f"{HY}.matchDeton")
+    fd, _ = _solver_function(S, fo, ("root_scalar",), "f")
     chk.touch(fd.name, fo.name)
+    VWd = [p for p in fo.params() if p != "self"][0]
     exo = hydro_extractor(S)
     # outer environment of the closure: run matchDeton up to the def
     outer = {}
     for st in fo.node.body:
-        if isinstance(st, ast.FunctionDef):
+        # the straight-line prologue (the closure may be defined before or after the data it captures)
+        if isinstance(st, ast.FunctionDef) or (isinstance(st, ast.Expr) and isinstance(st.value, ast.Constant)):
+            continue
+        if not isinstance(st, (ast.Assign, ast.AnnAssign)):
             break
         for e_, g_, o_ in exo.stmt(st, dict(outer, __module__="hydrodynamics", __class__="Hydrodynamics"), [], 0):
             outer = e_
-    outer.setdefault("vw", exo.sym("vw"))
-    res = exo.single(fd, None, outer)
-    Tn = exo.sym("self.Tnucl")
+    outer.setdefault(VWd, exo.sym(VWd))
     tm = exo.sym("tm")
+    res = exo.single(fd, {fd.params()[0]: tm}, outer)
+    Tn = exo.sym("self.Tnucl")
     sub_e = lambda expr: expr.replace(th("eHighT"), lambda x: th("wHighT")(x) - th("pHighT")(x)).replace(
         th("eLowT"), lambda x: th("wLowT")(x) - th("pLowT")(x))
     Adet = sub_e(A.subs({Tp: Tn, Tm: tm}, simultaneous=True))
     eHd = th("wHighT")(Tn) - th("pHighT")(Tn)
     eLd = th("wLowT")(tm) - th("pLowT")(tm)
-    ok, how = is_zero(res - (eHd - eLd) * (exo.sym("vw") ** 2 - Adet), chk.seed)
+    ok, how = is_zero(res - (eHd - eLd) * (exo.sym(VWd) ** 2 - Adet), chk.seed)
     chk.ob("R02.2", fd.where(), "detonation residual == (e+ - e-)(vw^2 - vpvm*vpovm) with e = w - p, T+ = Tn, v+ = vw", ok, how,
            key="deton-residual", how=how)
-    chk.ob("R02.2", fo.where(), "matchDeton: v+ = vw and T+ = Tnucl", outer.get("vp") == exo.sym("vw") and outer.get("Tp") == Tn,
-           f"vp={outer.get('vp')}, Tp={outer.get('Tp')}", key="deton-front")
     # v- from the junction relations at the root (term level: independent of local names)
     rp = [p_ for p_ in exo.paths(fo) if p_.raised is None and isinstance(p_.value, tuple) and len(p_.value) == 4]
     okv = None
+    okf = bool(rp)
     detail = f"{len(rp)} return paths"
+    front = []
     for p_ in rp:
         vp_, vm_, Tp_, Tm_ = p_.value
+        front.append(f"vp={vp_}, Tp={Tp_}")
+        okf = okf and vp_ == exo.sym(VWd) and Tp_ == Tn
         if not isinstance(vm_, sp.Basic) or not vm_.free_symbols:
             continue  # the vp == 1 special case
         Bd = drop_ite(B).subs({Tp: Tp_, Tm: Tm_}, simultaneous=True)
         okv, howv = is_zero(drop_ite(vm_) ** 2 - Bd, chk.seed)
         detail = howv
-        okv = okv and Tp_ == Tn and vp_ == exo.sym("vw") and "root" in str(Tm_)
+        okv = okv and Tp_ == Tn and vp_ == exo.sym(VWd) and _is_root_of(S, fo, fd, Tm_)
+    chk.ob("R02.2", fo.where(), "matchDeton: v+ = vw and T+ = Tnucl", okf, "; ".join(front)[:200], key="deton-front")
     chk.ob("R02.2", fo.where(), "matchDeton returns (vw, v-, Tn, T-root) with v-^2 == vpvm/vpovm evaluated at (Tn, T-root)", okv, detail,
            key="deton-vm", how=detail)
     chk.floor("R02.2", 7)
+
+
+def _is_root_of(S, fo, fd, term) -> bool:
+    """term is `<R>.root` with R the local holding the result of root_scalar(<fd>, ...) in fo"""
+    if not isinstance(term, sp.Symbol) or not term.name.endswith(".root"):
+        return False
+    R = term.name[:-5]
+    sts = [st for st in own_nodes(fo.node) if isinstance(st, ast.Assign) and any(isinstance(t, ast.Name) and t.id == R for t in st.targets)]
+    return bool(sts) and all(isinstance(st.value, ast.Call) and (dotted(st.value.func) or "").split(".")[-1] == "root_scalar"
+                             and isinstance(st.value.args[0] if st.value.args else next((k.value for k in st.value.keywords if k.arg == "f"), None), ast.Name)
+                             and (st.value.args[0] if st.value.args else next(k.value for k in st.value.keywords if k.arg == "f")).id == fd.node.name for st in sts)
 
 
 def r02_3(chk: Check):
@@ -136,7 +179,7 @@ def r02_3(chk: Check):
     if len(ps) != 1:
         raise Undecided(f"findHydroBoundaries: expected one regular return path, found {len(ps)}")
     c1, c2, rTp, rTm, vmid = ps[0].value
-    fm = fn("findMatching")(ex.sym("vwTry"))
+    fm = fn("findMatching")(ex.sym([p for p in fh.params() if p != "self"][0]))
     vp, vm, Tp, Tm = (fn("getitem")(fm, i) for i in range(4))
     w = th("wHighT")(Tp)
     ok, how = is_zero(c1 + w * vp / (1 - vp**2), chk.seed)
@@ -156,13 +199,18 @@ def r02_3(chk: Check):
     if len(pt) != 1:
         raise Undecided(f"template findHydroBoundaries: expected one regular return path, found {len(pt)}")
     c1t, c2t, tTp, tTm, tvmid = pt[0].value
-    env = pt[0].env
-    wt, pt_ = env.get("wHighT"), env.get("pHighT")
-    vpt, vmt, Tpt = env.get("vp"), env.get("vm"), env.get("Tp")
-    ok1, how1 = is_zero(c1t + wt * vpt / (1 - vpt**2), chk.seed)
-    ok2, how2 = is_zero(c2t - pt_ - wt * vpt**2 / (1 - vpt**2), chk.seed)
+    # (v+, v-, T+, T-) = findMatching(vw); the equation of state is read off the returned constants:  w := -c1 (1 - v+^2)/v+,  p := c2 + c1 v+
+    fmt = fn("findMatching")(ext.sym([p for p in ft.params() if p != "self"][0]))
+    vpt, vmt, Tpt, Tmt = (fn("getitem")(fmt, i) for i in range(4))
+    VPs, VMs = sp.Symbol("vplus__", positive=True), sp.Symbol("vminus__", positive=True)
+    c1s, c2s = (e.xreplace({vpt: VPs, vmt: VMs}) for e in (c1t, c2t))
+    wt = sp.simplify(-c1s * (1 - VPs**2) / VPs)
+    pt_ = sp.simplify(c2s + c1s * VPs)
+    # c1 = -w(T+) gamma^2 v+ and c2 = p(T+) + w(T+) gamma^2 v+^2 hold by construction of w, p; the content is that w and p are functions of T+ alone
+    ok1 = not wt.has(VPs) and not wt.has(VMs) and not wt.has(Tmt)
+    ok2 = not pt_.has(VPs) and not pt_.has(VMs) and not pt_.has(Tmt)
     chk.ob("R02.3", ft.where(), "template: c1 == -w+ gamma^2(v+) v+ and c2 == p+ + w+ gamma^2(v+) v+^2 with its own equation of state",
-           ok1 and ok2, f"{how1}; {how2}", key="template-c1c2", how=how1)
+           ok1 and ok2 and tTp == Tpt and tTm == Tmt, f"w+ = {wt}; p+ = {pt_}"[:300], key="template-c1c2", how="cas-proof(simplify)")
     # its equation of state: w = T dp/dT, p(Tn) = pN, w(Tn) = wN
     Tsym = sp.Symbol("Tq", positive=True)
     wq, pq = wt.subs(Tpt, Tsym), pt_.subs(Tpt, Tsym)
@@ -192,7 +240,8 @@ def r02_4(chk: Check):
         fi = S.func(name)
         chk.touch(fi.name)
         st = SideTyper(fi.node, seeds)
-        conf = st.conflicts()
+        # (+ temperatures recognised as "element 2 / 3 of a matching", through any local helper or unpacking)
+        conf = st.conflicts() + [(x, m) for x, m in _side_conflicts(S, fi) if not any(x is y for y, _ in st.conflicts())]
         typed = sorted(k for k in st.side) + sorted(f"{k}[{i}]" for k, v in st.elem.items() for i in v)
         chk.ob("R02.4", fi.where(), f"{fi.qual}: temperatures in front of / behind the wall reach only functions and bounds of their own phase "
                f"({len(typed)} typed names)", not conf, "; ".join(f"line {c.lineno}: {m}" for c, m in conf)[:400],
@@ -234,13 +283,14 @@ def r02_4(chk: Check):
         unpack = [s_ for s_ in own_nodes(fi.node) if isinstance(s_, ast.Assign) and isinstance(s_.targets[0], ast.Tuple)]
         rets = [r for r in own_nodes(fi.node) if isinstance(r, ast.Return)]
         ok = False
-        if unpack and rets and isinstance(rets[0].value, ast.List):
-            a = [n(e) for e in unpack[0].targets[0].elts]
-            b = [n(e) for e in rets[0].value.elts]
-            defs = {n(s_.targets[0]): {x.id for x in ast.walk(s_.value) if isinstance(x, ast.Name)} for s_ in own_nodes(fi.node)
-                    if isinstance(s_, ast.Assign) and isinstance(s_.targets[0], ast.Name)}
-            ok = len(a) == 2 and len(b) == 2 and a[0] in defs.get(b[0], set()) and a[1] in defs.get(b[1], set()) \
-                and a[1] not in defs.get(b[0], set()) and a[0] not in defs.get(b[1], set())
+        prm = [p for p in fi.params() if p != "self"]
+        if len(unpack) == 1 and len(rets) == 1 and isinstance(rets[0].value, ast.List) and len(rets[0].value.elts) == 2 and len(prm) == 1 \
+                and eqx(unpack[0].value, prm[0]) and len(unpack[0].targets[0].elts) == 2 and all(isinstance(e, ast.Name) for e in unpack[0].targets[0].elts):
+            a = [e.id for e in unpack[0].targets[0].elts]
+            cxm = Ctx(S, fi)
+            # returned element i depends on input element i only (temporaries looked through)
+            dep = [{x.id for x in ast.walk(cxm.resolve(e, keep=set(a))) if isinstance(x, ast.Name)} & (set(a) | {prm[0]}) for e in rets[0].value.elts]
+            ok = a[0] != a[1] and dep[0] == {a[0]} and dep[1] == {a[1]}
         chk.ob("R02.4", fi.where(), f"{hname} maps element 0 to element 0 and element 1 to element 1 (order (T+, T-) preserved)", ok,
                key=f"mapping-order|{hname}")
     chk.floor("R02.4", 15)
@@ -249,16 +299,22 @@ def r02_4(chk: Check):
 def r02_56(chk: Check):
     S = chk.src
     fd = S.func(f"{HY}.matchDeflagOrHyb")
-    stores = [st for st in own_nodes(fd.node) if isinstance(st, ast.Assign) and n(st.targets[0]) == "self.success"]
+    stores = [st for st in own_nodes(fd.node) if isinstance(st, ast.Assign) and eqx(st.targets[0], "self.success")]
     if len(stores) != 1:
         raise AnchorMissing("matchDeflagOrHyb: the store to self.success was not found")
-    v = stores[0].value
+    # the solver result: the local assigned from the root(...) call
+    sols = [st.targets[0].id for st in own_nodes(fd.node) if isinstance(st, ast.Assign) and isinstance(st.value, ast.Call) and (dotted(st.value.func) or "").split(".")[-1] == "root"
+            and isinstance(st.targets[0], ast.Name)]
+    if len(sols) != 1:
+        raise AnchorMissing("matchDeflagOrHyb: the result of the root(...) call was not found")
+    SOL = sols[0]
+    v = Ctx(S, fd).resolve(stores[0].value, keep={SOL})
     chk.ob("R02.5", fd.where(stores[0]), "matchDeflagOrHyb records the convergence of the 2x2 solve in self.success",
-           "sol.success" in n(v), n(v), key="flag-stored")
+           has(v, f"{SOL}.success"), n(v), key="flag-stored")
     # R02.6
     weakened = isinstance(v, ast.BoolOp) and isinstance(v.op, ast.Or)
     abs_tests = [c for c in ast.walk(v) if isinstance(c, ast.Compare) and any(isinstance(k, ast.Constant) for k in [c.left] + c.comparators)
-                 and "fun" in n(c)]
+                 and has(c, f"{SOL}.fun")]
     chk.ob("R02.6", fd.where(stores[0]), "acceptance of the 2x2 matching is scale free: the solver's own convergence verdict is not overridden "
            "by comparing the (velocity-squared sized) residual with an absolute literal", not (weakened and abs_tests),
            f"`{n(v)}`: residuals are O(v^2), so at slow walls every iterate passes the absolute test", key="abs-acceptance|matchDeflagOrHyb")
@@ -266,11 +322,11 @@ def r02_56(chk: Check):
     for fi in S.modules["hydrodynamics"].funcs.values():
         if fi.parent is not None or fi.cls != "Hydrodynamics" or fi.qual.endswith(".matchDeflagOrHyb"):
             continue
-        calls = [c for c in ast.walk(fi.node) if isinstance(c, ast.Call) and n(c.func) == "self.matchDeflagOrHyb"]
+        calls = [c for c in ast.walk(fi.node) if isinstance(c, ast.Call) and eqx(c.func, "self.matchDeflagOrHyb")]
         if not calls:
             continue
         chk.touch(fi.name)
-        reads = [x for x in ast.walk(fi.node) if isinstance(x, ast.Attribute) and isinstance(x.ctx, ast.Load) and n(x) == "self.success"]
+        reads = [x for x in ast.walk(fi.node) if isinstance(x, ast.Attribute) and isinstance(x.ctx, ast.Load) and eqx(x, "self.success")]
         chk.ob("R02.5", fi.where(), f"{fi.qual} calls matchDeflagOrHyb {len(calls)} time(s) and consults self.success before using the result",
                bool(reads), "the convergence flag is written by the callee and never read here", key=f"unread-flag|{fi.qual}")
     chk.floor("R02.5", 3)
